@@ -157,7 +157,9 @@ impl StreamDecoder {
     /// }
     /// ```
     pub fn decode(&mut self, buffer: &mut Buffer) -> Result<Option<RecordBatch>, ArrowError> {
-        while !buffer.is_empty() {
+        // A message without a body (e.g. a schema or an empty batch) is complete as soon as
+        // its metadata is, so it must not wait for further input to be processed
+        while !buffer.is_empty() || self.has_pending_empty_body() {
             match &mut self.state {
                 DecoderState::Header {
                     buf,
@@ -291,6 +293,17 @@ impl StreamDecoder {
             }
         }
         Ok(None)
+    }
+
+    /// Returns true if the metadata of a message with an empty body has been read
+    /// but the message has not been processed yet
+    fn has_pending_empty_body(&self) -> bool {
+        match &self.state {
+            DecoderState::Body { message } => {
+                self.buf.is_empty() && message.as_ref().bodyLength() == 0
+            }
+            _ => false,
+        }
     }
 
     /// Signal the end of stream
